@@ -109,10 +109,14 @@ var (
 	fstate [zsimrt.MaxTasks + 1]faultState
 
 	// sharedDrv is one driver value shared by every task (a server would keep one).
-	sharedDrv = driver.NewPostgresDriver()
+	// It is NOT built at package initialisation: a cold scenario must be the
+	// process's first use of the library (see ensureDrivers).
+	sharedDrv   driver.PostgresDriver
+	sharedDrvOK bool
 	// custom is a user-defined driver built the README way: range over the
 	// exported driver.Shared, wrap / override entries.
-	custom = buildCustom()
+	custom   driver.Base
+	customOK bool
 
 	errInjected = errors.New("injected callback error")
 )
@@ -124,6 +128,22 @@ func slotNow() int {
 		return zsimrt.Cur()
 	}
 	return soloSlot
+}
+
+// ensureDrivers builds the shared driver values on the main goroutine, outside
+// any simulated run. A cold scenario only needs the custom driver (which reads the
+// exported driver.Shared table and calls no library function); its renders use a
+// fresh NewPostgresDriver() per operation, so the first call of every library
+// function happens inside the simulated run.
+func ensureDrivers(cold bool) {
+	if !customOK {
+		custom = buildCustom()
+		customOK = true
+	}
+	if !cold && !sharedDrvOK {
+		sharedDrv = driver.NewPostgresDriver()
+		sharedDrvOK = true
+	}
 }
 
 func buildCustom() driver.Base {
@@ -208,14 +228,14 @@ func doCall(op *Op, e *expr.Expression, canon func(func() string) string) string
 		return canon(func() string { return strconv.Quote(s) + "|" + canonParams(ps) + "|" + errText(err) })
 	case KRender:
 		d := sharedDrv
-		if op.Fresh {
+		if op.Fresh || !sharedDrvOK {
 			d = driver.NewPostgresDriver()
 		}
 		s, err := d.Render(e)
 		return strconv.Quote(s) + "|" + errText(err)
 	case KRenderParam:
 		d := sharedDrv
-		if op.Fresh {
+		if op.Fresh || !sharedDrvOK {
 			d = driver.NewPostgresDriver()
 		}
 		s, ps, err := d.RenderParam(e)
